@@ -33,11 +33,12 @@ def options(spec, tier="quick"):
         # unlisted values: a foreign word, the empty string, and near-misses of listed values (a proper prefix, a
         # proper suffix, a changed case, two listed values joined as an error message would print them)
         near = []
-        for cand in ("", listed[0][:-1], listed[0][1:], listed[0].upper(), listed[0] + " ", ", ".join(listed[:2])):
+        for cand in ("", listed[0] + " ", "\u00a0" + listed[-1], listed[0][:-1], listed[0][1:], listed[0].upper(),
+                     " " + listed[0], listed[-1] + "\n", "\t" + listed[0] + "\t", ", ".join(listed[:2])):
             if cand not in listed and cand not in near:
                 near.append(cand)
         if tier != "thorough":
-            near = near[:3]
+            near = near[:5]
         return [ABSENT] + listed + [UNLISTED] + near
     return [ABSENT, "v"] + ([""] if tier == "thorough" else [])
 
@@ -100,6 +101,9 @@ def run_assignment(rule_name, node, direct, attrs_spec, items, case):
     if (ff is not None) != bool(exp):
         probs.append(problem("fail_fast_wrong", case, expected="raises" if exp else "returns None",
                              observed=repr(ff), rule=rule_name, mode="fail-fast"))
+    elif ff is not None and errs and not malformed and str(ff) != errs[0][1]:
+        # "fail-fast mode raises for the first": the violation raised is the one collecting mode lists first
+        probs.append(problem("fail_fast_not_first", case, expected=errs[0][1], observed=str(ff), rule=rule_name, mode="fail-fast"))
     # the same through a Rule object that is re-used for every assignment of this rule, and into a list that already
     # holds another node's entry
     robj = _REUSED.get(rule_name)
